@@ -318,3 +318,99 @@ Proof.
   intros H. apply andb_true_iff in H as [H1 H2]. split; [exact H1|].
   destruct (normalize_order m); [eauto|discriminate].
 Qed.
+
+(* ------------------------------------------------------------------ updates of a forest *)
+Lemma gforest_ext g g' : (forall x, g x = g' x) -> gforest g -> gforest g'.
+Proof.
+  intros E H n b Hg. rewrite <- E in Hg. destruct (H n b Hg) as (k & Hk). exists k.
+  eapply greach_ext; eauto.
+Qed.
+
+Definition g_add (g : gmap) (name base : bytes) : gmap := fun x => if beq name x then Some base else g x.
+Lemma greach_add g name base : g name = None -> forall n k, greach g n k -> greach (g_add g name base) n k.
+Proof.
+  intros Hf. induction 1 as [|n b k Hn Hg Hr IH]; [constructor|].
+  econstructor; [exact Hn| |exact IH]. unfold g_add.
+  destruct (beq name n) eqn:E; [apply beq_true in E; congruence|exact Hg].
+Qed.
+Lemma gforest_add g name base : gforest g -> g name = None -> (base = [] \/ g base <> None) ->
+  gforest (g_add g name base).
+Proof.
+  intros HF Hf Hb n b Hg. unfold g_add in Hg. destruct (beq name n) eqn:E.
+  - injection Hg as <-. destruct base as [|c0 b']; [exists 0; constructor|].
+    destruct Hb as [Hb|Hb]; [discriminate|].
+    destruct (g (c0 :: b')) as [b2|] eqn:Eb; [|congruence]. destruct (HF _ _ Eb) as (k & Hk).
+    exists (S k). apply greach_add; [exact Hf|]. econstructor; [discriminate|exact Eb|exact Hk].
+  - destruct (HF _ _ Hg) as (k & Hk). exists k. now apply greach_add.
+Qed.
+(* the case base = [] of a walk starting at [] with g [] defined cannot arise: walks stop at [] *)
+
+Definition g_del (g : gmap) (name : bytes) : gmap := fun x => if beq name x then None else g x.
+Lemma greach_gdel g name : (forall x y, g x = Some y -> y <> name) ->
+  forall n k, greach g n k -> n <> name -> greach (g_del g name) n k.
+Proof.
+  intros Hc. induction 1 as [|n b k Hn Hg Hr IH]; intros Hne; [constructor|].
+  econstructor; [exact Hn| |apply IH; eapply Hc; eauto]. unfold g_del.
+  destruct (beq name n) eqn:E; [apply beq_true in E; congruence|exact Hg].
+Qed.
+Lemma gforest_del g name : gforest g -> (forall x y, g x = Some y -> y <> name) -> gforest (g_del g name).
+Proof.
+  intros HF Hc n b Hg. unfold g_del in Hg. destruct (beq name n); [discriminate|].
+  destruct (HF _ _ Hg) as (k & Hk). exists k. apply greach_gdel; eauto.
+Qed.
+
+(* renaming node [old] to the fresh name [new] *)
+Definition ren (old new x : bytes) : bytes := if beq x old then new else x.
+Definition g_ren (g : gmap) (old new : bytes) : gmap := fun x =>
+  if beq x new then g old
+  else if beq x old then None
+  else match g x with Some b => Some (ren old new b) | None => None end.
+Lemma greach_ren g old new : g new = None -> new <> [] -> old <> [] -> g old <> Some old ->
+  forall n k, greach g n k -> greach (g_ren g old new) (ren old new n) k.
+Proof.
+  intros Hf Hn0 Ho0 Hloop. induction 1 as [|n b k Hn Hg Hr IH].
+  - unfold ren. destruct (beq [] old) eqn:E; [|constructor].
+    apply beq_true in E. congruence.
+  - assert (Hnn : n <> new) by (intros ->; congruence).
+    unfold ren at 1. destruct (beq n old) eqn:E.
+    + apply beq_true in E. subst n. econstructor; [exact Hn0| |exact IH].
+      unfold g_ren. rewrite beq_refl. rewrite Hg. f_equal. unfold ren.
+      destruct (beq b old) eqn:E2; [apply beq_true in E2; congruence|reflexivity].
+    + econstructor; [exact Hn| |exact IH]. unfold g_ren.
+      destruct (beq n new) eqn:E3; [apply beq_true in E3; congruence|]. rewrite E, Hg. reflexivity.
+Qed.
+Lemma gforest_ren g old new : gforest g -> g new = None -> new <> [] -> old <> [] -> old <> new ->
+  gforest (g_ren g old new).
+Proof.
+  intros HF Hf Hn0 Ho0 Hon.
+  assert (Hloop : g old <> Some old).
+  { intros E. destruct (HF _ _ E) as (k & Hk). assert (greach g old (S k)) by (econstructor; eauto).
+    pose proof (greach_det _ _ _ Hk _ H). lia. }
+  intros n b Hg. unfold g_ren in Hg. destruct (beq n new) eqn:E1.
+  - destruct (HF _ _ Hg) as (k & Hk). exists k.
+    assert (ren old new b = b) as <-.
+    { unfold ren. destruct (beq b old) eqn:E; [apply beq_true in E; congruence|reflexivity]. }
+    now apply greach_ren.
+  - destruct (beq n old); [discriminate|]. destruct (g n) as [b0|] eqn:Eg; [|discriminate].
+    injection Hg as <-. destruct (HF _ _ Eg) as (k & Hk). exists k. now apply greach_ren.
+Qed.
+
+(* test_name *)
+Lemma test_name_need m n : test_name m n NNeed = true ->
+  n <> [] /\ legal_name n = true /\ exists l, lm_get m n = Some l.
+Proof.
+  unfold test_name. destruct n as [|c n']; [discriminate|]. intros H. apply andb_true_iff in H as [H1 H2].
+  split; [discriminate|]. split; [exact H1|]. destruct (lm_get m (c :: n')); [eauto|discriminate].
+Qed.
+Lemma test_name_free m n : test_name m n NFree = true ->
+  n <> [] /\ legal_name n = true /\ lm_get m n = None.
+Proof.
+  unfold test_name. destruct n as [|c n']; [discriminate|]. intros H. apply andb_true_iff in H as [H1 H2].
+  split; [discriminate|]. split; [exact H1|]. destruct (lm_get m (c :: n')); [discriminate|reflexivity].
+Qed.
+Lemma test_name_opt m n : test_name m n NOptNeed = true ->
+  n = [] \/ (legal_name n = true /\ exists l, lm_get m n = Some l).
+Proof.
+  unfold test_name. destruct n as [|c n']; [now left|]. intros H. apply andb_true_iff in H as [H1 H2].
+  right. split; [exact H1|]. destruct (lm_get m (c :: n')); [eauto|discriminate].
+Qed.
